@@ -202,7 +202,15 @@ def run_case(case):
             cfg["groups"], cfg["pos"] = [1], ["pre"]
     one = merged(cfg)
     split = len(cfg.get("groups") or []) > 1
-    mods = [(spec, cfg, {"kind": "plain"})] + ([(spec, one, {"kind": "plain"})] if split else [])
+    # the first module also holds a sibling derive (another identifier, same features with default names): a derive may
+    # not require anything of the surrounding module, so two of them must be able to live side by side
+    sib = copy.deepcopy(spec)
+    sib["ident"] = "Sibling" if spec.get("ident") != "Sibling" else "Sibling2"
+    sib_cfg = {"feats": [{"f": f["f"], "params": [p_ for p_ in f["params"] if p_[0] == "mode"]} for f in cfg["feats"] if f["f"] != "sorted"]}
+    sib_cfg["groups"] = [len(sib_cfg["feats"])] if sib_cfg["feats"] else []
+    sib_cfg["pos"] = ["pre"] if sib_cfg["feats"] else []
+    mods = [(spec, cfg, {"kind": "hostile", "items": [E.enum_item_text(sib, sib_cfg)], "no_prelude": False})] + \
+        ([(spec, one, {"kind": "plain"})] if split else [])
     sc = C.script_for_modules(m, [cfg] + ([one] if split else []), J.fp(case), n_hist=3, n_pairs=8, n_strings=12, limit=12)
     obs = J.run_script(out, mods, sc)
     if obs is None and split:
